@@ -54,6 +54,10 @@ pub enum StageFault {
     DisagreeingLinks,
     FailingStepRule,
     FailingSubLayout,
+    /// the caller passes no trusted key at all
+    NoTrustedKey,
+    /// the caller trusts a key that did not sign the layout
+    WrongTrustedKey,
 }
 
 #[derive(Clone, Debug, Serialize, Deserialize)]
@@ -175,6 +179,7 @@ pub fn build(spec: &Spec) -> World {
             links.push(LinkFile {
                 step: name.clone(),
                 filed_under: k.clone(),
+                name_field: None,
                 body: Body::Link { link: LinkSpec { name: name.clone(), materials: prev.clone(), products: products.clone(), ..Default::default() }, sigs: vec![SigEntry::good(k)], tamper: None },
             });
         }
@@ -191,12 +196,12 @@ pub fn build(spec: &Spec) -> World {
     let mut w = World { layout: LayoutSpec { expires: 4_000_000_000, readme: String::new(), keys, steps, inspect }, sigs: vec![SigEntry::good(&owner())], tamper: None, links };
     // stage fault
     let n = w.layout.steps.len();
-    if n == 0 && !matches!(spec.fault, StageFault::None | StageFault::BadOwnerSignature | StageFault::Expired) {
+    if n == 0 && !matches!(spec.fault, StageFault::None | StageFault::BadOwnerSignature | StageFault::Expired | StageFault::NoTrustedKey | StageFault::WrongTrustedKey) {
         return w;
     }
     let si = if n > 0 { spec.fault_step as usize % n } else { 0 };
     match spec.fault {
-        StageFault::None => {}
+        StageFault::None | StageFault::NoTrustedKey | StageFault::WrongTrustedKey => {}
         StageFault::BadOwnerSignature => w.sigs[0].corrupt = Some(Corrupt::BitFlip(9)),
         StageFault::Expired => w.layout.expires = 1_000_000_000,
         StageFault::MissingLink => {
@@ -260,7 +265,7 @@ pub fn build(spec: &Spec) -> World {
             w.layout.steps[si].pubkeys = vec![k.clone()];
             w.links.retain(|f| f.step != name);
             let inner = World { layout: LayoutSpec { expires: 4_000_000_000, readme: "inner".into(), keys: vec![], steps: vec![], inspect: vec![] }, sigs: vec![], tamper: None, links: vec![] };
-            w.links.push(LinkFile { step: name, filed_under: k, body: Body::Sub { world: Box::new(inner), placement: Placement::Proper } });
+            w.links.push(LinkFile { step: name, filed_under: k, name_field: None, body: Body::Sub { world: Box::new(inner), placement: Placement::Proper } });
         }
     }
     w
@@ -315,7 +320,7 @@ impl Property for C08 {
         "Fault enumeration over the stage at which verification fails: layouts with 1-2 steps (real SHA-256 digests of a small content \
          table, one or two functionaries) and 1-2 inspections whose command is sh -c '<sentinel>; <ops>; exit k' with ops in {create file, \
          append, delete, mkdir+create, write stdout/stderr}, k in {0,1,2,126,127,255,random}, plus command-not-found and killed-by-signal; \
-         inspection rules over all seven kinds; one fault at a chosen stage in {bad owner signature, expired, missing link, unauthorised \
+         inspection rules over all seven kinds; one fault at a chosen stage in {bad owner signature, no trusted key passed by the caller, a trusted key that did not sign, expired, missing link, unauthorised \
          link, badly signed link, unmet threshold, disagreeing links, failing step rule, failing sub-layout} or none; each case runs in a \
          fresh working directory. Oracles: (1) a fault at a pre-inspection stage (confirmed by the ground-truth model) => Err and no \
          sentinel file and no <inspection>.link file exists; (2) no fault and some inspection ends with a non-zero status / cannot run / \
@@ -336,7 +341,7 @@ impl Property for C08 {
             6 => Just(StageFault::None),
             1 => Just(StageFault::BadOwnerSignature), 1 => Just(StageFault::Expired), 1 => Just(StageFault::MissingLink), 1 => Just(StageFault::UnauthorizedLink),
             1 => Just(StageFault::BadlySignedLink), 1 => Just(StageFault::UnmetThreshold), 1 => Just(StageFault::DisagreeingLinks), 1 => Just(StageFault::FailingStepRule),
-            1 => Just(StageFault::FailingSubLayout),
+            1 => Just(StageFault::FailingSubLayout), 1 => Just(StageFault::NoTrustedKey), 1 => Just(StageFault::WrongTrustedKey),
         ];
         (
             proptest::collection::vec((proptest::collection::vec((any::<u8>(), any::<u8>()), 0..3), any::<bool>()), 1..3),
@@ -352,7 +357,12 @@ impl Property for C08 {
         let mut o = Outcome::new();
         let w = build(spec);
         let now = now_secs();
-        let run_once = |w: &World, env: &mut Env, tag: &str| -> (Option<Result<in_toto::models::Metablock, String>>, Judged, Artifacts, Artifacts, Vec<bool>, Vec<bool>) {
+        let caller: Vec<KeySpec> = match spec.fault {
+            StageFault::NoTrustedKey => vec![],
+            StageFault::WrongTrustedKey => vec![crate::gen::world::stranger(3)],
+            _ => vec![owner()],
+        };
+        let run_once = |w: &World, env: &mut Env, tag: &str, caller: &[KeySpec]| -> (Option<Result<in_toto::models::Metablock, String>>, Judged, Artifacts, Artifacts, Vec<bool>, Vec<bool>) {
             let root = env.fresh_dir(tag);
             let linkdir = root.join("links");
             let cwd = root.join("cwd");
@@ -365,11 +375,11 @@ impl Property for C08 {
                 std::fs::write(&p, CONTENTS[*c as usize % CONTENTS.len()].replace('\n', "N")).unwrap();
             }
             let info = write_world(w, &linkdir);
-            let j = judge(w, &info, &[owner()], now, true);
+            let j = judge(w, &info, caller, now, true);
             let before = snapshot(&cwd);
             let old = std::env::current_dir().unwrap();
             std::env::set_current_dir(&cwd).unwrap();
-            let r = run_verify(&info, &own_ids(&[owner()]), &linkdir, None);
+            let r = run_verify(&info, &own_ids(caller), &linkdir, None);
             std::env::set_current_dir(&old).unwrap();
             let mut after = snapshot(&cwd);
             let n = w.layout.inspect.len();
@@ -381,7 +391,7 @@ impl Property for C08 {
             let _ = std::fs::remove_dir_all(&root);
             (r, j, before, after, sentinels, linkfiles)
         };
-        let (r, j, before, after, sentinels, linkfiles) = run_once(&w, env, "c08");
+        let (r, j, before, after, sentinels, linkfiles) = run_once(&w, env, "c08", &caller);
         let Some(r) = r else { return o };
         o.class(format!("stage:{:?}", spec.fault));
         for p in &spec.inspections {
@@ -403,7 +413,7 @@ impl Property for C08 {
             }
             // control: without the fault the first inspection runs
             let c = build(&Spec { fault: StageFault::None, ..spec.clone() });
-            let (_, cj, _, _, cs, _) = run_once(&c, env, "c08c");
+            let (_, cj, _, _, cs, _) = run_once(&c, env, "c08c", &[owner()]);
             o.evals = 2;
             let first_runs = !matches!(spec.inspections[0].ending, Ending::NotFound);
             if cj.violated.is_empty() && (cs[0] || !first_runs) {
@@ -428,7 +438,7 @@ impl Property for C08 {
                     p.expected_products.clear();
                 }
                 let c = build(&s2);
-                let (cr, _, _, _, _, _) = run_once(&c, env, "c08c");
+                let (cr, _, _, _, _, _) = run_once(&c, env, "c08c", &[owner()]);
                 o.evals = 2;
                 if matches!(cr, Some(Ok(_))) {
                     o.nontrivial(format!("2|{}", fp));
@@ -452,7 +462,7 @@ impl Property for C08 {
                         s2.inspections[0].expected_materials.clear();
                         s2.inspections[0].expected_products.clear();
                         let c = build(&s2);
-                        let (cr, _, _, _, _, _) = run_once(&c, env, "c08c");
+                        let (cr, _, _, _, _, _) = run_once(&c, env, "c08c", &[owner()]);
                         o.evals = 2;
                         if matches!(cr, Some(Ok(_))) {
                             o.nontrivial(format!("3|{}", fp));
